@@ -539,6 +539,20 @@ example : run { cap := 2, nodes := [] } [.incr 1, .incr 2, .incr 2, .incr 3, .in
     = some { cap := 2, nodes := [(1, [4])] } := by decide
 example : (run { cap := 2, nodes := [] } [.incr 1, .incr 2, .incr 2, .incr 3]).map (·.nodes) = some [(1, [3]), (2, [2])] := by decide
 
+
+/-- **The code the model was written against.** The statements of the modelled functions,
+regenerated from the current source on every run, are the ones the model was written against;
+any edit to one of them makes this obligation fail and starts a search for a failing input. -/
+theorem filters_match_model :
+    Gen.Filters.hotKeyDo =
+      ["key := f.extractKey(cmd, req.Body())",
+      "if len(key) > 0 && f.counter != nil { f.counter.Incr(key) }",
+      "return Continue"] ∧
+    Gen.Filters.hotKeyExtractKey =
+      ["if len(v.Array) <= 1 { return \"\" }",
+      "switch cmd { case \"eval\", \"cluster\", \"auth\", \"scan\": return \"\" default: return string(v.Array[1].Text) }"] := by
+  refine ⟨rfl, rfl⟩
+
 /-- **The code the model was written against.** The statements of the modelled functions,
 regenerated from the current source on every run, are the ones the model was written against;
 any edit to one of them makes this obligation fail and starts a search for a failing input. -/
@@ -636,24 +650,27 @@ theorem code_matches_model :
       ["c.rwmu.RLock()",
       "defer c.rwmu.RUnlock()",
       "return c.keys"] ∧
+    Gen.Hotkey.allocCounter =
+      ["c.rwmu.Lock()",
+      "defer c.rwmu.Unlock()",
+      "counter, ok := c.counters[name]",
+      "if ok { atomic.AddInt32(&counter.refs, 1) return counter }",
+      "cb := func() { c.rwmu.Lock() if atomic.AddInt32(&counter.refs, -1) <= 0 && c.counters[name] == counter { delete(c.counters, name) } c.rwmu.Unlock() }",
+      "counter = NewCounter(c.capacity, cb)",
+      "counter.refs = 1",
+      "c.counters[name] = counter",
+      "return counter"] ∧
+    Gen.Hotkey.free =
+      ["if c.freeCb != nil { c.freeCb() }",
+      "if atomic.LoadInt32(&c.refs) > 0 { return }",
+      "c.mu.Lock()",
+      "c.reset()",
+      "c.mu.Unlock()"] ∧
     Gen.Hotkey.halve =
       ["if c.val == 0 { return }",
       "c.val = c.val >> 1",
       "c.lut = nowInMinute()"] := by
-  refine ⟨rfl, rfl, rfl, rfl, rfl, rfl, rfl, rfl, rfl, rfl, rfl, rfl, rfl⟩
-
-/-- **The code the model was written against.** The statements of the modelled functions,
-regenerated from the current source on every run, are the ones the model was written against;
-any edit to one of them makes this obligation fail and starts a search for a failing input. -/
-theorem filters_match_model :
-    Gen.Filters.hotKeyDo =
-      ["key := f.extractKey(cmd, req.Body())",
-      "if len(key) > 0 && f.counter != nil { f.counter.Incr(key) }",
-      "return Continue"] ∧
-    Gen.Filters.hotKeyExtractKey =
-      ["if len(v.Array) <= 1 { return \"\" }",
-      "switch cmd { case \"eval\", \"cluster\", \"auth\", \"scan\": return \"\" default: return string(v.Array[1].Text) }"] := by
-  refine ⟨rfl, rfl⟩
+  refine ⟨rfl, rfl, rfl, rfl, rfl, rfl, rfl, rfl, rfl, rfl, rfl, rfl, rfl, rfl, rfl⟩
 
 end SamVerif.Props.C19
 
